@@ -17,6 +17,10 @@ CLAIMS = {
   text="Lean 4 theorems: for every history over any number of profiles and every token ever issued (own, foreign, closed, expired, garbage) the wallet code as written answers exactly as the token-capability Spec (C19_model_refines_spec, with the owner-check/session-cache/store-cache model and the invariants token-unique, session=>store-cached); at Spec level: refused <=> token not a live token of that very profile (C19_auth), refused operations change nothing (C19_failed_noop), no operation on wallet w touches contents of q != w (C19_isolation), reads return own content only. Tie: correspondence of real wallet.Wallet over one shared provider (multi-profile histories incl. real expiry) with the compiled model",
   note="trusted: Lean kernel; allowed axioms; gcache expiry driven by the real clock (150 ms / 420 ms sleep); harness provider whose stores survive Close; Metadata stands for all content types; DidComm wrapper methods not driven",
   technique="Lean 4 refinement + invariant proof + multi-tenant correspondence"),
+ "C09": dict(
+  text="(1) the CanTransitionTo relation and message-target maps of all five protocol state machines are REGENERATED on every run by running the real code on the complete finite domain (verif export hooks) into Generated/States.lean; Lean `decide` theorems over the generated tables: every allowed transition is an edge of the published graph (Spec/C09), terminal states have no outgoing transition, no transition switches role, every message target is a declared state. (2) engine theorems for any table within the graph: the states announced by one execution loop form a path (chain_isPath, any Execute behaviour / fuel), a message not allowed in the current state is rejected without change (reject_noop), terminal states are never left by a message (terminal_absorbing), a stale parked callback is dropped (stale_callback_dropped). (3) correspondence: seeded and guided message sequences against the real present-proof and issue-credential services (v2+v3; every message type, duplicates, out-of-order, every continue option / stop) - the compiled engine model predicts accept/reject, announced post-states and persisted state exactly, and the Lean oracle checks path validity of what the implementation announced",
+  note="trusted: Lean kernel; allowed axioms; export hooks (state lists are written in the hook files); hand-written Execute tables ppExec/icExec (validated by correspondence); didexchange / connection / introduce decided at table level only; a general invariant theorem over parked histories is not proved (open finding C09-F2 shows it is false for issue-credential)",
+  technique="regenerated transition tables + Lean decide obligations + engine lemmas + trace correspondence"),
 }
 
 def main():
